@@ -491,7 +491,8 @@ class Algebra:
         if canon_blade:
             swaps, *_ = _swap_blades(basis_blade, '', target=canon_blade)
             return canon_blade, swaps
-        return f'e{2 ** self.d}', 0
+        # Not a blade of this algebra. (A made up name such as f'e{2 ** self.d}' can be a blade, e.g. with start_index=2 ** d.)
+        return basis_blade, 0
 
     def _swap_blades_bin(self, A: int, B: int):
         """
